@@ -199,27 +199,67 @@ def run(ctx):
         m = fb.fn('rten::graph::planner::CachedPlan::matches')
         if ctx.anchor(R, 'fn CachedPlan::matches', m is not None and m.has_mir()):
             fns = [fb.fn(p) for p in fb.with_closures(m.path)]
-            bs = [(f, c) for f in fns for c in f.calls() if call_is(c, 're:binary_search$|re:contains$|re:PartialEq')]
-            fields = set()
-            for f, c in bs:
-                for o in f.origins(c.args[0]):
-                    if o[0] == 'param' and o[1] == 0:
-                        fields |= set(o[2])
-                    if o[0] == 'upvar':
-                        fields |= set(f.o.get('upvars', {}).values()) | set(o[1])
-            lens = 0
-            for i, b in enumerate(m.bbs):
-                for s in b['s']:
-                    if s[0] == '=' and s[2][0] == 'bin' and s[2][1] == 'Eq':
-                        oa, ob = m.origins(s[2][2]), m.origins(s[2][3])
-                        for pi, fld in ((1, 'inputs'), (2, 'outputs')):
-                            if (has_param_origin(oa, pi) and has_param_origin(ob, 0, fld)) or (has_param_origin(ob, pi) and has_param_origin(oa, 0, fld)):
-                                lens += 1
+
+            def unit_facts(f, pa, pb_test):
+                """inside f (+ nested closures): length equality, membership search and duplicate check between the list
+                selected by pa (origin predicate) and the one selected by pb_test"""
+                sub = [fb.fn(p) for p in fb.with_closures(f.path)]
+                leneq = False
+                for b in f.bbs:
+                    for st in b['s']:
+                        if st[0] == '=' and st[2][0] == 'bin' and st[2][1] == 'Eq':
+                            oa, ob = f.origins(st[2][2]), f.origins(st[2][3])
+                            la = has_origin_call(oa, 're:::len$') or any(o[0] == 'len_of' for o in oa)
+                            lb = has_origin_call(ob, 're:::len$') or any(o[0] == 'len_of' for o in ob)
+                            if la and lb and ((pa(oa) and pb_test(ob)) or (pa(ob) and pb_test(oa))):
+                                leneq = True
+                member = False
+                for g in sub:
+                    for c in g.calls():
+                        if not call_is(c, 're:binary_search$|re:::contains$'):
+                            continue
+                        if g is f:
+                            member |= pb_test(f.origins(c.args[0]))
+                        elif any(o[0] == 'upvar' for o in g.origins(c.args[0])):
+                            # searched list is captured: look at what the closure was created with
+                            for b in f.bbs:
+                                for st in b['s']:
+                                    if st[0] == '=' and st[2][0] == 'agg' and st[2][1] == 'closure' and st[2][2] == g.path:
+                                        member |= any(pb_test(f.origins(o)) for o in st[2][4])
+                nodup = False
+                for c in f.calls():
+                    if call_is(c, ('rten::graph::planner::first_duplicate_by', 're:::is_sorted', 're:::dedup')) and pa(f.origins(c.args[0])):
+                        # the result must decide the outcome (is_none feeding the return value / a guard)
+                        nodup = True
+                return leneq, member, nodup
+
+            units = {}
+            # helper form: matches calls one of its own closures with (param list, self.<field>)
+            for c in m.calls():
+                if not (c.callee or '').startswith(m.path + '::{closure'):
+                    continue
+                h = fb.fn(c.callee)
+                tup = m.resolve_copy(c.args[1]) if len(c.args) > 1 else None
+                if h is None or tup is None or tup[0] != 'rv' or tup[1][0] != 'agg' or len(tup[1][4]) != 2:
+                    continue
+                o1, o2 = m.origins(tup[1][4][0]), m.origins(tup[1][4][1])
+                for pi, fld in ((1, 'inputs'), (2, 'outputs')):
+                    if has_param_origin(o1, pi) and has_param_origin(o2, 0, fld) and not has_param_origin(o2, 0, 'outputs' if fld == 'inputs' else 'inputs'):
+                        units[fld] = unit_facts(h, lambda og: has_param_origin(og, 1), lambda og: has_param_origin(og, 2))
+            # direct form: everything inside matches itself
+            for pi, fld in ((1, 'inputs'), (2, 'outputs')):
+                if fld not in units:
+                    units[fld] = unit_facts(m, lambda og, pi=pi: has_param_origin(og, pi), lambda og, fld=fld: has_param_origin(og, 0, fld))
             dep = depends(m, 0)
             need = {'param inputs': any(l == 2 for l, f in dep), 'param outputs': any(l == 3 for l, f in dep),
                     'self.inputs': any(l == 1 and 'inputs' in f for l, f in dep), 'self.outputs': any(l == 1 and 'outputs' in f for l, f in dep)}
-            ctx.inst(R, 'matches:both-sets', lens >= 2 and len(bs) >= 2 and all(need.values()),
-                     'matches compares len(inputs)==len(self.inputs), len(outputs)==len(self.outputs) (%d) and searches both stored sets (%d membership calls); the returned value depends (data/control) on %s' % (lens, len(bs), need), m.loc())
+            okb = all(u[0] and u[1] for u in units.values()) and all(need.values())
+            ctx.inst(R, 'matches:both-sets', okb,
+                     'matches compares each id list with the stored one: %s (length equality, membership search); the returned value depends (data/control) on %s'
+                     % ({k: (v[0], v[1]) for k, v in units.items()}, need), m.loc())
+            ctx.inst(R, 'matches:rejects-duplicates', all(u[2] for u in units.values()),
+                     'a list of the right length whose ids are all present but repeated must not match (otherwise the cache bypasses the planner\'s duplicate checks and run_plan panics): duplicate check present for %s'
+                     % {k: v[2] for k, v in units.items()}, m.loc())
         n = fb.fn('rten::graph::planner::CachedPlan::new')
         if ctx.anchor(R, 'fn CachedPlan::new', n is not None and n.has_mir()):
             aggs = [a for a in aggregates_of(fb, 'rten::graph::planner::CachedPlan') if a[0].path == n.path]
